@@ -26,27 +26,37 @@ func NewQueue() *Queue {
 
 // Requeue prepends some bytes to the front of the queue.
 func (q *Queue) Requeue(b []byte) {
+	verifYield("Q_req_lock")
 	q.lock.Lock()
 	defer q.lock.Unlock()
+
+	verifYield("Q_req_locked")
 
 	n := [][]byte{b}
 	q.queue = append(n, q.queue...)
 
 	q.depth++
 
+	verifYield("Q_req_take")
 	<-q.depthChan
+	verifYield("Q_req_put")
 	q.depthChan <- q.depth
 }
 
 // Enqueue queues some bytes at the end of the queue.
 func (q *Queue) Enqueue(b []byte) {
+	verifYield("Q_enq_lock")
 	q.lock.Lock()
 	defer q.lock.Unlock()
+
+	verifYield("Q_enq_locked")
 
 	q.queue = append(q.queue, b)
 	q.depth++
 
+	verifYield("Q_enq_take")
 	<-q.depthChan
+	verifYield("Q_enq_put")
 	q.depthChan <- q.depth
 }
 
@@ -58,15 +68,20 @@ func (q *Queue) Dequeue() []byte {
 		return nil
 	}
 
+	verifYield("Q_deq_lock")
 	q.lock.Lock()
 	defer q.lock.Unlock()
+
+	verifYield("Q_deq_locked")
 
 	b := q.queue[0]
 
 	q.queue = q.queue[1:]
 	q.depth--
 
+	verifYield("Q_deq_take")
 	<-q.depthChan
+	verifYield("Q_deq_put")
 	q.depthChan <- q.depth
 
 	return b
@@ -78,8 +93,11 @@ func (q *Queue) DequeueAll() []byte {
 		return nil
 	}
 
+	verifYield("Q_all_lock")
 	q.lock.Lock()
 	defer q.lock.Unlock()
+
+	verifYield("Q_all_locked")
 
 	b := q.queue
 
@@ -87,7 +105,9 @@ func (q *Queue) DequeueAll() []byte {
 
 	q.depth = 0
 
+	verifYield("Q_all_take")
 	<-q.depthChan
+	verifYield("Q_all_put")
 	q.depthChan <- q.depth
 
 	return bytes.Join(b, []byte{})
@@ -97,7 +117,11 @@ func (q *Queue) getDepth() int {
 	// rather than locking/unlocking to access the q.depth, we simply grab the depth from the
 	// depthChan and then put it back in and return the value we got. this should be slightly faster
 	// and less cpu than locking/unlocking
+	verifYield("Q_gd_take")
+
 	d := <-q.depthChan
+
+	verifYield("Q_gd_back")
 	q.depthChan <- d
 
 	return d
